@@ -102,7 +102,7 @@ impl Property for C09 {
         vec!["the ide-level analysis of the same files is taken as 'the span the analysis computed' (its own correctness is C05/C17's business); 'idle' = all spawned tasks ended (verif hook counters)".into()]
     }
     fn families(&self, ctx: &Ctx) -> Vec<Family> {
-        vec![Family::new("sem-sessions", ctx.tier.pick(200, 3000), |_c, rng, emit| {
+        vec![Family::new("sem-sessions", ctx.tier.pick(200, 10000), |_c, rng, emit| {
             for _ in 0..10 {
                 if !emit(json!({"kind": "sem-lsp", "seed": rng.next() >> 16, "n": 2 + rng.below(6), "opts": "clean"})) {
                     return;
